@@ -199,9 +199,16 @@ def b_frames(rng, tier):
                 return (rm * math.cos(d2.rad()) * math.cos(a2.rad()), rm * math.cos(d2.rad()) * math.sin(a2.rad()), rm * math.sin(d2.rad()))
             for name, vec, target in (("J2000", Sun.rectangular_coordinates_j2000(e), JDE2000),
                                       ("B1950", Sun.rectangular_coordinates_b1950(e), Epoch(2433282.4235))):
-                s, dr = vec_sep(vec, carried(target))
+                cv = carried(target)
+                s, dr = vec_sep(vec, cv)
                 nv = math.sqrt(sum(c * c for c in vec))
-                frame_results.append((name, not (s > 2 * AS or dr > 1e-5 or abs(nv - r) > 1e-5), (name, s / AS, dr, nv - r)))
+                # latitude above the ecliptic of the target frame (obliquity of J2000 / B1950), in arcsec: the recorded J2000
+                # defect is one of longitude only, so the latitude keeps the property's 2 arcsec whatever the envelope
+                eo = math.radians(23.4392911 if name == "J2000" else 23.4457889)
+                blat = [math.degrees(math.asin(max(-1.0, min(1.0, (-v[1] * math.sin(eo) + v[2] * math.cos(eo)) / math.sqrt(sum(c * c for c in v))))))
+                        for v in (vec, cv)]
+                frame_results.append((name, not (s > 2 * AS or dr > 1e-5 or abs(nv - r) > 1e-5),
+                                      (name, s / AS, dr, nv - r, (blat[0] - blat[1]) / AS)))
             q = Epoch(jd + rng.uniform(-300, 300) * 365.25)
             vec = Sun.rectangular_coordinates_equinox(e, q)
             s, dr = vec_sep(vec, carried(q))
@@ -219,6 +226,8 @@ def b_frames(rng, tier):
             # recorded error envelope is that finding, anything beyond it is a new violation
             env = {"J2000": (160.0, 1e-5), "B1950": (3 * 3600.0, 0.02), "equinox": (400.0, 1e-5)}[name]
             inside = fdet[1] <= env[0] and fdet[2] <= env[1]
+            if name == "J2000" and abs(fdet[4]) > 2.0:
+                inside = False                        # a latitude error is not the recorded (longitude) finding
             yield ((round(jd, 3), name, "inside-known-envelope" if inside else "beyond-known-envelope"), fok, fdet)
     for i in range(n):
         jd = J + rng.uniform(-4000, 2000) * 365.25
